@@ -2,6 +2,7 @@
 //! kind offered to the real server decoders; oracle: nothing is released (no target, no payload)
 use base64ct::{Base64, Encoding};
 
+use crate::c02::timed;
 use crate::c04::random_uuid;
 use crate::craft::Crafter;
 use crate::gen_ss::*;
@@ -88,6 +89,13 @@ fn ss_cases(s: &mut Session, cr: &mut Crafter, rng: &mut Rng, cipher: &'static s
                 let sv = new_server(s);
                 let d = feed_all(s, &sv, &[w], true);
                 must_refuse(s, &key, "a request naming an unregistered user", &d);
+            }
+            // identity header naming nobody, session sealed under the *server* key: a peer that holds the
+            // server key but no registered user key
+            if let Some(w) = client_stream(s, &format!("{}:{}", psk, psk)) {
+                let sv = new_server(s);
+                let d = feed_all(s, &sv, &[w], true);
+                must_refuse(s, &key, "a request from a peer holding only the server key (identity = server key)", &d);
             }
             // no identity header at all (plain PSK client against a multi-user server)
             if let Some(w) = client_stream(s, &psk) {
@@ -208,6 +216,86 @@ fn vm_tj_cases(s: &mut Session, rng: &mut Rng) {
     s.mark_nontrivial();
 }
 
+/// the same for datagrams: the udp codec of the server releases a datagram only for the configured key, and
+/// with users only for a registered user key named by the identity header; replies are sealed for that user alone
+fn ss_udp_cases(s: &mut Session, rng: &mut Rng, cipher: &'static str, want_user: bool) {
+    let cfg = random_cfg(rng, cipher, want_user);
+    s.begin_case(&format!("ss-udp:{}:{}", cipher, if cfg.with_user { "eih" } else { "psk" }));
+    let key = format!("ss-udp:{}", cipher);
+    let n = key_len(cipher);
+    let us = s.fresh("us");
+    s.run(&format!("ssu.server {} cipher={} password={} users={}", us, cipher, cfg.server_password, cfg.users));
+    let offer = |s: &mut Session, rng: &mut Rng, password: &str| -> Option<(String, String)> {
+        let uc = s.fresh("uc");
+        if s.run(&format!("ssu.client {} cipher={} password={}", uc, cipher, password)) != "ok" {
+            return None;
+        }
+        let w = timed(s, &format!("ssu.cenc {} addr={} payload={}", uc, random_addr(rng), hex(&rng.bytes(20))));
+        unhex(&w)?;
+        Some((uc, timed(s, &format!("ssu.sdec {} {}", us, w))))
+    };
+    // positive control, attributed to the right user
+    let Some((uc_good, r)) = offer(s, rng, &cfg.client_password) else { return };
+    let want_name = if cfg.with_user { cfg.users.split(';').find(|u| cfg.client_password.ends_with(u.split_once(':').unwrap().1)).map(|u| u.split_once(':').unwrap().0.to_owned()).unwrap_or_default() } else { "-".to_owned() };
+    if !r.starts_with("ok ") || !r.contains(&format!(" user={} ", want_name)) {
+        s.oracle_fail(&format!("{}:control", key), &format!("the right credential was not accepted / attributed: {}", &r[..r.len().min(60)]));
+        return;
+    }
+    let mut variants: Vec<(String, &str)> = vec![];
+    if is2022(cipher) {
+        let psk = cfg.server_password.clone();
+        let parts: Vec<String> = cfg.client_password.split(':').map(|x| x.to_string()).collect();
+        for i in 0..parts.len() {
+            let mut p = parts.clone();
+            p[i] = flip_b64(rng, &p[i]);
+            variants.push((p.join(":"), "a datagram under a key with one wrong bit"));
+        }
+        let unregistered = Base64::encode_string(&rng.bytes(n));
+        if cfg.with_user {
+            variants.push((format!("{}:{}", psk, unregistered), "a datagram naming an unregistered user"));
+            variants.push((format!("{}:{}", psk, psk), "a datagram from a peer holding only the server key (identity = server key)"));
+            variants.push((psk.clone(), "a datagram without identity header to a multi-user server"));
+            variants.push((parts[parts.len() - 1].clone(), "a datagram under a user key without the server key"));
+            variants.push((format!("{}:{}", unregistered, parts[parts.len() - 1]), "a datagram of a registered user under a wrong server key"));
+        } else {
+            variants.push((unregistered.clone(), "a datagram under an unrelated key"));
+            if eih(cipher) {
+                variants.push((format!("{}:{}", psk, unregistered), "a datagram with identity header to a single-user server"));
+            }
+        }
+    } else {
+        variants.push((format!("{}x", cfg.client_password), "a datagram under another password"));
+        variants.push((cfg.client_password.to_uppercase() + "_", "a datagram under another password"));
+    }
+    for (pw, what) in variants {
+        if let Some((_, r)) = offer(s, rng, &pw) {
+            if r.starts_with("ok") {
+                s.oracle_fail(&format!("{}:released", key), &format!("{}: released without the credential: {}", what, &r[..r.len().min(60)]));
+            } else if r.starts_with("panic") {
+                s.oracle_fail(&format!("{}:panic", key), &format!("decoder panicked on {}", what));
+            }
+        }
+    }
+    // the reply to one user opens for that user only (another registered user with the same session id gets nothing)
+    if cfg.with_user {
+        let csid = 1 + rng.below(1 << 50);
+        s.run(&format!("ssu.setid {} csid={}", uc_good, csid));
+        let other = cfg.users.split(';').map(|u| u.split_once(':').unwrap()).find(|(name, _)| *name != want_name);
+        if let Some((_, other_key)) = other {
+            let uo = s.fresh("uc");
+            s.run(&format!("ssu.client {} cipher={} password={}:{}", uo, cipher, cfg.server_password, other_key));
+            s.run(&format!("ssu.setid {} csid={}", uo, csid));
+            let w = timed(s, &format!("ssu.senc {} csid={} ssid={} pid=1 user={} addr={} payload={}", us, csid, rng.below(1 << 50), want_name, random_addr(rng), hex(b"for one user only")));
+            let own = timed(s, &format!("ssu.cdec {} {}", uc_good, w));
+            let foreign = timed(s, &format!("ssu.cdec {} {}", uo, w));
+            if !own.starts_with("ok") || foreign.starts_with("ok") {
+                s.oracle_fail(&format!("{}:user-separation", key), "a reply is not sealed for exactly the user it belongs to");
+            }
+        }
+    }
+    s.mark_nontrivial();
+}
+
 pub fn generate(s: &mut Session, tier: &str, rng: &mut Rng) {
     let Some(mut cr) = Crafter::new() else {
         s.begin_case("no-driver");
@@ -220,6 +308,12 @@ pub fn generate(s: &mut Session, tier: &str, rng: &mut Rng) {
             ss_cases(s, &mut cr, rng, cipher, false);
             if eih(cipher) {
                 ss_cases(s, &mut cr, rng, cipher, true);
+            }
+        }
+        for cipher in CIPHERS {
+            ss_udp_cases(s, rng, cipher, false);
+            if eih(cipher) {
+                ss_udp_cases(s, rng, cipher, true);
             }
         }
         vm_tj_cases(s, rng);
